@@ -25,6 +25,7 @@ type c11Sink struct {
 	Spawn  int      `json:"spawn,omitempty"`  // child events added by the sink (handled by sink sc on other workers)
 	Count  bool     `json:"count,omitempty"`  // the sink increments a global counter inside a mutex block
 	Mode   int      `json:"mode,omitempty"`   // how the sink fails: 0 raise(), 1 out-of-bounds assignment in the sink body (plain scope error), 2 return <value>
+	Foreign int     `json:"foreign,omitempty"` // 1: the sink starts a cascade of its own with addEvent(..., scope) - scope {} ; 2: scope {"": true}. Its sink fails; nothing of it belongs to this event
 }
 
 type c11Event struct {
@@ -79,6 +80,9 @@ func c11Gen(r *simrt.RNG, tier string) interface{} {
 		s.Count = r.Bool(0.4)
 		if r.Bool(0.3) {
 			s.Mode = 1 + r.Intn(2)
+		}
+		if r.Bool(0.2) {
+			s.Foreign = 1 + r.Intn(2)
 		}
 		p.Sinks = append(p.Sinks, s)
 	}
@@ -184,6 +188,11 @@ func c11Shrink(pi interface{}) []interface{} {
 			q.Sinks[i].Mode = 0
 			out = append(out, q)
 		}
+		if s.Foreign > 0 {
+			q := clone()
+			q.Sinks[i].Foreign = 0
+			out = append(out, q)
+		}
 	}
 	if p.Workers > 2 {
 		q := clone()
@@ -243,6 +252,10 @@ func c11Program(p *c11Plan) string {
 		for k := 0; k < s.Spawn; k++ {
 			fmt.Fprintf(&b, "    addEvent(\"c{{id}}x%sx%d\", \"c11x.c\", {\"id\": id, \"failc\": event.state.failc})\n", s.Name, k)
 		}
+		if s.Foreign > 0 {
+			// an explicit scope argument makes this a root event of a new cascade
+			fmt.Fprintf(&b, "    addEvent(\"f{{id}}x%s\", \"c11x.f\", {\"id\": id + 1000}, %s)\n", s.Name, []string{"{}", "{\"\": true}"}[s.Foreign-1])
+		}
 		if s.Sleep > 0 {
 			fmt.Fprintf(&b, "    sleep(%d)\n", s.Sleep)
 		}
@@ -263,6 +276,7 @@ func c11Program(p *c11Plan) string {
 		}
 		b.WriteString("    }\n}\n")
 	}
+	b.WriteString("sink sf\n    kindmatch [\"c11x.f\"],\n    priority 0\n{\n    raise(\"T-sf\", event.state.id, [event.state.id])\n}\n")
 	b.WriteString("sink sc\n    kindmatch [\"c11x.c\"],\n    priority 0\n{\n    let id := event.state.id\n    let acc := shared(id)\n    probe(\"sc\", id, acc, event.state.id, event.name, id, 0)\n    if event.state.failc {\n        raise(\"T-sc\", id, [id, acc])\n    }\n}\n")
 	return b.String()
 }
